@@ -19,6 +19,18 @@ claimed = {
   text="Decides the clause 'writing the same font twice always gives the same bytes, and reading is a function of the bytes': every range over a map, maps.Keys/Values result, clock read, random source, go statement or select reachable from (*Font).Write, WriteTrueTypePDF, WriteOpenTypeCFFPDF and sfnt.Read is shown order-insensitive by a recognised pattern (keyed store injective in the key, commutative reduction, filtered min/max, collect-then-unconditional-sort with a comparator total on the keys, per-cell collection with order-insensitive consumers) with no side-effecting call inside; anything else is a violation naming the loop and the first order-dependent statement. This is a necessary condition of the byte fixed point that holds for every font value, which sampling cannot show (a nondeterministic encoder passes most runs). Level 'other': exact decision of this structural clause only.",
   note="Trusted: go/types, go/ssa, VTA reachability, the purity oracle (effects engine + external table), reviewed table entries in tables/reviewed.json (7 today, each keyed to one construct and one failure class; the name.Encode entries carry a side condition re-checked on every run). Not covered: losslessness of Read∘Write, precedence rules in Read, numeric precision — value-level, no static argument in reach.",
   ref="DESIGN.md §3 E5, §4 C01"),
+ "C15": dict(
+  technique="static control-dependence / CFG-ordering / value-provenance rules on go/ssa for feature selection and the layout pipeline, plus order-sensitivity analysis (mapdet)",
+  engine="c15rules",
+  text="Decides structural clauses of the end-to-end layout statement: (required) FindLookups includes the lookups of the language system's required feature on a path that is not control-dependent (post-dominator based) on the caller's feature-switch map, while optional features are; (rangefilter) every lookup index appended to the result is compared with len(LookupList); (mapdet) feature selection, kern conversion and layout contain no order-dependent map iteration (sorted, duplicate-free result; 'the same on every call'); (pipeline) Layout runs cmap lookup, GSUB, advance widths, GPOS in this order on the CFG; (bufreset) the Layouter's reusable buffer is re-used only as buf[:0] and extended only by append/Context.Apply, so nothing of an earlier result can leak into a later one. Each is a line of the statement whose truth is visible in the code's shape for all fonts, strings and switch maps. Level 'other'.",
+  note="Trusted: go/types, go/ssa, VTA reachability, purity oracle, 3 reviewed table entries (comparators / coverage invariant). Not covered: kerning values (e.g. how kern subtables are merged), ligature choice, language-matcher semantics, correctness of widths — value-level.",
+  ref="DESIGN.md §4 C15"),
+ "C18": dict(
+  technique="static error-flow and byte-count dataflow on go/ssa (errdrop value-flow, must-accumulate analysis, sort-before-index typestate)",
+  engine="errflow",
+  text="Decides the error-discipline clauses for every fault position at once: (errdrop) for each of the ~340 calls of a fallible I/O primitive or of a module function that can return an I/O error on the write paths (header.Write, Font.Write*, cff.Font.Write) and read paths (sfnt.Read, header.Read, table readers, parser), the error value flows to a return (possibly wrapped) or panic of the caller — deferred or discarded calls are violations; (bytecount) in header.Write a forward must-analysis shows that at every return the count includes the result of every Write executed so far, including padding writes, and each Write's error is tested with an immediate return; pass-through functions return the callee's count and error together; (sortfirst) no element of a locally sorted slice is read before the sort (header.Read's end-of-file probe uses the sorted table list). A dropped error or unaccumulated n is exactly a fault position at which the call succeeds or mis-reports. Level 'other'.",
+  note="Trusted: go/types, go/ssa, VTA reachability, the list of I/O primitives and in-memory sinks (*bytes.Buffer, *strings.Builder, hash), 1 reviewed entry (deferred Close of a read-only file). Not covered: that truncated *content* is detected by each table decoder (overlaps C02), behaviour of short writes inside the destination.",
+  ref="DESIGN.md §3 E7, §4 C18"),
 }
 
 pending_reason = "not claimed yet: the engines this property needs are still being built (DESIGN.md §9 build order); no check is registered until it runs exact on the unchanged tree"
@@ -49,6 +61,8 @@ for pid in props:
 
 engines = [
  {"name": "sharedwrite", "path": "sfntlint/effects.go, sfntlint/c16.go, sfntlint/externals.go", "serves_properties": ["C16"], "kind_free_text": "interprocedural write-effect / ownership analysis on go/ssa (E6)"},
+ {"name": "errflow", "path": "sfntlint/errflow.go, sfntlint/c18.go", "serves_properties": ["C18", "C17"], "kind_free_text": "error value-flow and byte-count must-analysis (E7)"},
+ {"name": "c15rules", "path": "sfntlint/c15.go, sfntlint/ssahelp.go", "serves_properties": ["C15", "C07"], "kind_free_text": "control-dependence, CFG ordering and buffer-provenance rules"},
  {"name": "mapdet", "path": "sfntlint/mapdet.go, sfntlint/props_det.go", "serves_properties": ["C01", "C07", "C08", "C09", "C13", "C15", "C20"], "kind_free_text": "order-sensitivity analysis of map iteration, clock and scheduling sources (E5)"},
 ]
 for e in engines:
